@@ -4648,7 +4648,7 @@ let maxCellWhs =
 let pass1_cell st i =
   let dci = get_ci st i in
   let k0 = length dci.ci_refs in
-  let step1 = fun acc jr ->
+  let step2 = fun acc jr ->
     let (p, mask0) = acc in
     let (c, sum) = p in
     let (j, r) = jr in
@@ -4659,10 +4659,10 @@ let pass1_cell st i =
     else ((c, sum), (app mask0 (false :: [])))
   in
   let idx = combine (seq O k0) dci.ci_refs in
-  let (p, mask0) = fold_left step1 idx ((k0, (sub maxCellWhs (S O))), []) in
+  let (p, mask0) = fold_left step2 idx ((k0, (sub maxCellWhs (S O))), []) in
   let (c, sum) = p in
   if Nat.ltb O c
-  then let step2 = fun acc jr ->
+  then let step3 = fun acc jr ->
          let (st0, sum0) = acc in
          let (j, r) = jr in
          if nth j mask0 false
@@ -4674,7 +4674,7 @@ let pass1_cell st i =
               then ((set_ci st0 r (with_wt dcj limit)), sum')
               else (st0, sum')
        in
-       fst (fold_left step2 idx (st, sum))
+       fst (fold_left step3 idx (st, sum))
   else st
 
 (** val pass2_cell : cinfo list -> nat -> cinfo list **)
@@ -4865,7 +4865,7 @@ let serialize dag hashes roots idx hasCrc cacheBits =
       | None -> []
     in
     let reps = map repr_of infos in
-    let step1 = fun acc p0 ->
+    let step2 = fun acc p0 ->
       let (off, offs) = acc in
       let (ci, rep) = p0 in
       let off' = N.add off (N.of_nat (length rep)) in
@@ -4877,7 +4877,7 @@ let serialize dag hashes roots idx hasCrc cacheBits =
       in
       (off', (fixed :: offs))
     in
-    let (total, offsets) = fold_left step1 (rev (combine infos reps)) (N0, [])
+    let (total, offsets) = fold_left step2 (rev (combine infos reps)) (N0, [])
     in
     let offSize = byte_len total in
     let flags =
@@ -5299,8 +5299,8 @@ let rec hd_at h c i =
   let kids = fun j ->
     let rec go = function
     | [] -> Ok []
-    | ch0 :: t ->
-      (match hd_at h ch0 (if merkle then S j else j) with
+    | ch1 :: t ->
+      (match hd_at h ch1 (if merkle then S j else j) with
        | Ok x ->
          (match go t with
           | Ok xs -> Ok (x :: xs)
@@ -5358,14 +5358,14 @@ let rec prune h pruned path c = match c with
        else let go =
               let rec go i = function
               | [] -> Ok []
-              | ch0 :: t ->
-                bind (prune h pruned (app path (i :: [])) ch0) (fun x ->
+              | ch1 :: t ->
+                bind (prune h pruned (app path (i :: [])) ch1) (fun x ->
                   bind (go (S i) t) (fun xs -> Ok (x :: xs)))
               in go
             in
             bind (go O refs) (fun refs' ->
               let m' =
-                fold_left (fun acc ch0 -> N.coq_lor acc (cell_mask ch0))
+                fold_left (fun acc ch1 -> N.coq_lor acc (cell_mask ch1))
                   refs' m
               in
               Ok (Cell (special, ty, m', data, refs')))
@@ -5566,8 +5566,8 @@ let rec flatten c base =
     let rec go rs cur =
       match rs with
       | [] -> ([], [])
-      | ch0 :: t ->
-        let blk = flatten ch0 cur in
+      | ch1 :: t ->
+        let blk = flatten ch1 cur in
         let (idxs, rest) = go t (add cur (length blk)) in
         ((cur :: idxs), (app blk rest))
     in go
@@ -7693,9 +7693,9 @@ let newer old u =
 
 (** val mk_conns : nat -> (nat -> n) -> (bool * z) list -> conn list **)
 
-let mk_conns nconns heads obs =
+let mk_conns nconns heads obs0 =
   map (fun i ->
-    let o = nth i obs (false, Z0) in
+    let o = nth i obs0 (false, Z0) in
     { c_alive = (fst o); c_seqno = (heads i); c_rtt = (snd o) })
     (seq O nconns)
 
@@ -7766,7 +7766,7 @@ let step0 strat nconns tgt s = function
      then Some (set_rpc (set_writer s (Some ARun)) RUpd)
      else None
    | _ -> None)
-| LUpdDone obs ->
+| LUpdDone obs0 ->
   (match s.rpc with
    | RUpd ->
      if is_writer s ARun
@@ -7774,7 +7774,7 @@ let step0 strat nconns tgt s = function
             (set_rpc
               (set_writer
                 (set_best s
-                  (update_best strat (mk_conns nconns s.head obs) s.best))
+                  (update_best strat (mk_conns nconns s.head obs0) s.best))
                 None) RIdle)
      else None
    | _ -> None)
@@ -8298,9 +8298,9 @@ let rec set_nth_obs i v l =
     strategy -> nat -> (nat -> n) -> nat -> nat -> sx -> (bool * z) list ->
     state -> pend_op list -> ((sx * (bool * z) list) * state) * pend_op list **)
 
-let do_op strat nconns tgt i nw o obs s ps =
+let do_op strat nconns tgt i nw o obs0 s ps =
   let ret = fun x ->
-    let (p, ps1) = x in let (r, s1) = p in (((r, obs), s1), ps1)
+    let (p, ps1) = x in let (r, s1) = p in (((r, obs0), s1), ps1)
   in
   (match o with
    | SL l ->
@@ -8358,7 +8358,7 @@ let do_op strat nconns tgt i nw o obs s ps =
                            in
                            let (r, s2) = p in
                            ((((SL (r :: ((sx_nat (fst u)) :: ((SN
-                           (snd u)) :: [])))), obs), s2), ps2)
+                           (snd u)) :: [])))), obs0), s2), ps2)
                          | None ->
                            ret (((SA (String ((Ascii (true, false, true,
                              false, false, true, true, false)), (String
@@ -8386,7 +8386,7 @@ let do_op strat nconns tgt i nw o obs s ps =
                                EmptyString))))))))), s), ps)
                         else ret
                                (launch strat nconns tgt i GRun ((MLabel
-                                 LTick) :: ((MLabel (LUpdDone obs)) :: []))
+                                 LTick) :: ((MLabel (LUpdDone obs0)) :: []))
                                  KBest (SA (String ((Ascii (false, true,
                                  false, false, false, true, true, false)),
                                  (String ((Ascii (false, false, true, true,
@@ -8817,7 +8817,7 @@ let do_op strat nconns tgt i nw o obs s ps =
                                        false)), (String ((Ascii (true, false,
                                        true, false, false, true, true,
                                        false)), EmptyString))))))))),
-                                       (set_nth_obs (small a1) (al, r) obs)),
+                                       (set_nth_obs (small a1) (al, r) obs0)),
                                        s), ps)
                                 else ret
                                        (((sx_err (String ((Ascii (true, true,
@@ -8932,11 +8932,11 @@ let sort_by_index l =
     strategy -> nat -> (nat -> n) -> nat -> nat -> sx list -> (bool * z) list
     -> state -> pend_op list -> sx list **)
 
-let rec run_ops1 strat nconns tgt i nw ops obs s ps =
+let rec run_ops1 strat nconns tgt i nw ops obs0 s ps =
   match ops with
   | [] -> []
   | o :: t ->
-    let (p, ps1) = do_op strat nconns tgt i nw o obs s ps in
+    let (p, ps1) = do_op strat nconns tgt i nw o obs0 s ps in
     let (p0, s1) = p in
     let (r, obs1) = p0 in
     let (p1, outs) = settle strat nconns tgt (S (S (length ps1))) s1 ps1 in
@@ -8975,7 +8975,7 @@ let wait_scenario strat nconns tgt s0 heads fin =
   in
   let s2 = try_step strat nconns tgt s1 (LRecv O) in
   let s3 =
-    fold_left (fun s ch0 -> deliver strat nconns tgt s (fst ch0) (snd ch0))
+    fold_left (fun s ch1 -> deliver strat nconns tgt s (fst ch1) (snd ch1))
       heads s2
   in
   let s4 =
@@ -10342,8 +10342,8 @@ type key_source =
     known_table -> ((z * bytes0) -> exec_result) -> (z * bytes0) -> bytes0 ->
     (bytes0 * key_source) res **)
 
-let wallet_key boc lib_ok ext_ok known exec acc si =
-  match get_wallet_pubkey (exec acc) with
+let wallet_key boc lib_ok ext_ok known exec0 acc si =
+  match get_wallet_pubkey (exec0 acc) with
   | Some k0 -> Ok (k0, FromGetMethod)
   | None ->
     (match si with
@@ -10364,7 +10364,7 @@ let wallet_key boc lib_ok ext_ok known exec acc si =
     bool res) -> (bytes0 -> bool res) -> z -> z -> proof ->
     (bytes0 * key_source) res **)
 
-let check_proof_src h verify b64 boc lib_ok ext_ok known exec cp cd lifetime now tp =
+let check_proof_src h verify b64 boc lib_ok ext_ok known exec0 cp cd lifetime now tp =
   bind (cp tp.p_payload) (fun verified ->
     if negb verified
     then Err eOther
@@ -10376,7 +10376,7 @@ let check_proof_src h verify b64 boc lib_ok ext_ok known exec cp cd lifetime now
                   then Err eOther
                   else bind (parse_account_id tp.p_address) (fun acc ->
                          bind
-                           (wallet_key boc lib_ok ext_ok known exec acc
+                           (wallet_key boc lib_ok ext_ok known exec0 acc
                              tp.p_state_init) (fun ks ->
                            bind
                              (ed_verify verify (fst ks) (create_message h pm)
@@ -10389,10 +10389,10 @@ let check_proof_src h verify b64 boc lib_ok ext_ok known exec cp cd lifetime now
     -> bool) -> known_table -> ((z * bytes0) -> exec_result) -> (bytes0 ->
     bool res) -> (bytes0 -> bool res) -> z -> z -> proof -> bytes0 res **)
 
-let check_proof h verify b64 boc lib_ok ext_ok known exec cp cd lifetime now tp =
+let check_proof h verify b64 boc lib_ok ext_ok known exec0 cp cd lifetime now tp =
   res_map fst
-    (check_proof_src h verify b64 boc lib_ok ext_ok known exec cp cd lifetime
-      now tp)
+    (check_proof_src h verify b64 boc lib_ok ext_ok known exec0 cp cd
+      lifetime now tp)
 
 (** val dec_digits : nat -> z -> bytes0 -> bytes0 **)
 
@@ -12878,6 +12878,1521 @@ let run_clock = function
     false)), (String ((Ascii (true, true, false, true, false, true, true,
     false)), EmptyString))))))))))))))))))
 
+type result =
+| ROk0 of n
+| RTimeout0
+| RSendErr
+
+type call_pc =
+| CInit
+| CReg
+| CPicked of nat
+| CSent
+| CLeaving of result
+| CReturned of result
+
+type packet =
+| PAnswer of n * n
+| PMalformed of n
+| PPong
+| PJunk
+
+type state0 = { pc : (nat -> call_pc); reg : (n * nat) list;
+                ch0 : (nat -> n option); next : nat; status : (nat -> bool);
+                broken : (nat -> bool); rq : (nat -> nat);
+                loops : (nat -> nat); wire : (nat -> packet list);
+                emitted : (n * n) list; delivered : (nat * n) list }
+
+(** val set_pc : state0 -> (nat -> call_pc) -> state0 **)
+
+let set_pc s v =
+  { pc = v; reg = s.reg; ch0 = s.ch0; next = s.next; status = s.status;
+    broken = s.broken; rq = s.rq; loops = s.loops; wire = s.wire; emitted =
+    s.emitted; delivered = s.delivered }
+
+(** val set_reg : state0 -> (n * nat) list -> state0 **)
+
+let set_reg s v =
+  { pc = s.pc; reg = v; ch0 = s.ch0; next = s.next; status = s.status;
+    broken = s.broken; rq = s.rq; loops = s.loops; wire = s.wire; emitted =
+    s.emitted; delivered = s.delivered }
+
+(** val set_ch : state0 -> (nat -> n option) -> state0 **)
+
+let set_ch s v =
+  { pc = s.pc; reg = s.reg; ch0 = v; next = s.next; status = s.status;
+    broken = s.broken; rq = s.rq; loops = s.loops; wire = s.wire; emitted =
+    s.emitted; delivered = s.delivered }
+
+(** val set_next : state0 -> nat -> state0 **)
+
+let set_next s v =
+  { pc = s.pc; reg = s.reg; ch0 = s.ch0; next = v; status = s.status;
+    broken = s.broken; rq = s.rq; loops = s.loops; wire = s.wire; emitted =
+    s.emitted; delivered = s.delivered }
+
+(** val set_status : state0 -> (nat -> bool) -> state0 **)
+
+let set_status s v =
+  { pc = s.pc; reg = s.reg; ch0 = s.ch0; next = s.next; status = v; broken =
+    s.broken; rq = s.rq; loops = s.loops; wire = s.wire; emitted = s.emitted;
+    delivered = s.delivered }
+
+(** val set_broken : state0 -> (nat -> bool) -> state0 **)
+
+let set_broken s v =
+  { pc = s.pc; reg = s.reg; ch0 = s.ch0; next = s.next; status = s.status;
+    broken = v; rq = s.rq; loops = s.loops; wire = s.wire; emitted =
+    s.emitted; delivered = s.delivered }
+
+(** val set_rq : state0 -> (nat -> nat) -> state0 **)
+
+let set_rq s v =
+  { pc = s.pc; reg = s.reg; ch0 = s.ch0; next = s.next; status = s.status;
+    broken = s.broken; rq = v; loops = s.loops; wire = s.wire; emitted =
+    s.emitted; delivered = s.delivered }
+
+(** val set_loops : state0 -> (nat -> nat) -> state0 **)
+
+let set_loops s v =
+  { pc = s.pc; reg = s.reg; ch0 = s.ch0; next = s.next; status = s.status;
+    broken = s.broken; rq = s.rq; loops = v; wire = s.wire; emitted =
+    s.emitted; delivered = s.delivered }
+
+(** val set_wire : state0 -> (nat -> packet list) -> state0 **)
+
+let set_wire s v =
+  { pc = s.pc; reg = s.reg; ch0 = s.ch0; next = s.next; status = s.status;
+    broken = s.broken; rq = s.rq; loops = s.loops; wire = v; emitted =
+    s.emitted; delivered = s.delivered }
+
+(** val set_emitted : state0 -> (n * n) list -> state0 **)
+
+let set_emitted s v =
+  { pc = s.pc; reg = s.reg; ch0 = s.ch0; next = s.next; status = s.status;
+    broken = s.broken; rq = s.rq; loops = s.loops; wire = s.wire; emitted =
+    v; delivered = s.delivered }
+
+(** val set_delivered : state0 -> (nat * n) list -> state0 **)
+
+let set_delivered s v =
+  { pc = s.pc; reg = s.reg; ch0 = s.ch0; next = s.next; status = s.status;
+    broken = s.broken; rq = s.rq; loops = s.loops; wire = s.wire; emitted =
+    s.emitted; delivered = v }
+
+(** val cupd : (nat -> 'a1) -> nat -> 'a1 -> nat -> 'a1 **)
+
+let cupd f i v j =
+  if Nat.eqb j i then v else f j
+
+(** val lookup0 : n -> (n * nat) list -> nat option **)
+
+let rec lookup0 id = function
+| [] -> None
+| p :: t -> let (k0, i) = p in if N.eqb k0 id then Some i else lookup0 id t
+
+(** val remove_id : n -> (n * nat) list -> (n * nat) list **)
+
+let remove_id id r =
+  filter (fun e -> negb (N.eqb (fst e) id)) r
+
+type label0 =
+| LRegister of nat
+| LPick of nat
+| LSendOk of nat
+| LSendFail of nat
+| LEmit of nat * packet
+| LDeliver of nat
+| LRecv0 of nat
+| LTimeout of nat
+| LUnregister of nat
+| LDrop of nat
+| LPingFail of nat
+| LSilence of nat
+| LReconnectEnter of nat
+| LReconnectDone of nat
+
+(** val step1 : nat -> (nat -> n) -> state0 -> label0 -> state0 option **)
+
+let step1 nconn ids s = function
+| LRegister i ->
+  (match s.pc i with
+   | CInit ->
+     Some
+       (set_pc (set_reg s (((ids i), i) :: (remove_id (ids i) s.reg)))
+         (cupd s.pc i CReg))
+   | _ -> None)
+| LPick i ->
+  (match s.pc i with
+   | CReg ->
+     Some
+       (set_pc (set_next s (Nat.modulo (S s.next) nconn))
+         (cupd s.pc i (CPicked s.next)))
+   | _ -> None)
+| LSendOk i ->
+  (match s.pc i with
+   | CPicked k0 ->
+     if s.status k0 then Some (set_pc s (cupd s.pc i CSent)) else None
+   | _ -> None)
+| LSendFail i ->
+  (match s.pc i with
+   | CPicked k0 ->
+     if negb (s.status k0)
+     then Some (set_pc s (cupd s.pc i (CLeaving RSendErr)))
+     else if s.broken k0
+          then Some
+                 (set_pc (set_rq s (cupd s.rq k0 (S (s.rq k0))))
+                   (cupd s.pc i (CLeaving RSendErr)))
+          else None
+   | _ -> None)
+| LEmit (k0, p) ->
+  if (&&) (s.status k0) (negb (s.broken k0))
+  then let s1 = set_wire s (cupd s.wire k0 (app (s.wire k0) (p :: []))) in
+       (match p with
+        | PAnswer (id, d) ->
+          Some (set_emitted s1 (app s.emitted ((id, d) :: [])))
+        | _ -> Some s1)
+  else None
+| LDeliver k0 ->
+  (match s.wire k0 with
+   | [] -> None
+   | p :: rest ->
+     let s1 = set_wire s (cupd s.wire k0 rest) in
+     (match p with
+      | PAnswer (id, d) ->
+        (match lookup0 id s.reg with
+         | Some i ->
+           (match s.ch0 i with
+            | Some _ -> None
+            | None ->
+              Some
+                (set_delivered
+                  (set_ch (set_reg s1 (remove_id id s.reg))
+                    (cupd s.ch0 i (Some d))) (app s.delivered ((i, d) :: []))))
+         | None -> Some s1)
+      | PMalformed id -> Some (set_reg s1 (remove_id id s.reg))
+      | _ -> Some s1))
+| LRecv0 i ->
+  (match s.pc i with
+   | CSent ->
+     (match s.ch0 i with
+      | Some d ->
+        Some
+          (set_pc (set_ch s (cupd s.ch0 i None))
+            (cupd s.pc i (CLeaving (ROk0 d))))
+      | None -> None)
+   | _ -> None)
+| LTimeout i ->
+  (match s.pc i with
+   | CSent -> Some (set_pc s (cupd s.pc i (CLeaving RTimeout0)))
+   | _ -> None)
+| LUnregister i ->
+  (match s.pc i with
+   | CLeaving r ->
+     Some
+       (set_pc (set_reg s (remove_id (ids i) s.reg))
+         (cupd s.pc i (CReturned r)))
+   | _ -> None)
+| LDrop k0 ->
+  if (&&) (s.status k0) (negb (s.broken k0))
+  then Some
+         (set_wire (set_broken s (cupd s.broken k0 true)) (cupd s.wire k0 []))
+  else None
+| LPingFail k0 ->
+  if (&&) (s.status k0) (s.broken k0)
+  then Some (set_rq s (cupd s.rq k0 (S (s.rq k0))))
+  else None
+| LSilence k0 ->
+  if s.status k0 then Some (set_rq s (cupd s.rq k0 (S (s.rq k0)))) else None
+| LReconnectEnter k0 ->
+  (match s.rq k0 with
+   | O -> None
+   | S n0 ->
+     let s1 = set_rq s (cupd s.rq k0 n0) in
+     if s.status k0
+     then Some
+            (set_wire
+              (set_loops
+                (set_broken (set_status s1 (cupd s.status k0 false))
+                  (cupd s.broken k0 true)) (cupd s.loops k0 (S (s.loops k0))))
+              (cupd s.wire k0 []))
+     else Some s1)
+| LReconnectDone k0 ->
+  (match s.loops k0 with
+   | O -> None
+   | S n0 ->
+     Some
+       (set_loops
+         (set_broken (set_status s (cupd s.status k0 true))
+           (cupd s.broken k0 false)) (cupd s.loops k0 n0)))
+
+(** val exec : nat -> (nat -> n) -> state0 -> label0 list -> state0 option **)
+
+let rec exec nconn ids s = function
+| [] -> Some s
+| l :: t ->
+  (match step1 nconn ids s l with
+   | Some s' -> exec nconn ids s' t
+   | None -> None)
+
+(** val init_state0 : state0 **)
+
+let init_state0 =
+  { pc = (fun _ -> CInit); reg = []; ch0 = (fun _ -> None); next = O;
+    status = (fun _ -> true); broken = (fun _ -> false); rq = (fun _ -> O);
+    loops = (fun _ -> O); wire = (fun _ -> []); emitted = []; delivered = [] }
+
+(** val small0 : n -> nat **)
+
+let small0 n0 =
+  N.to_nat
+    (N.min n0 (Npos (XO (XO (XO (XO (XO (XO (XO (XO (XO (XO (XO (XO
+      XH))))))))))))))
+
+(** val qid : nat -> n **)
+
+let qid i =
+  N.add (Npos XH) (N.of_nat i)
+
+(** val unknown_id : n -> n **)
+
+let unknown_id d =
+  N.add (Npos (XO (XO (XO (XO (XO (XO (XI (XO (XO (XI (XO (XO (XO (XO (XI (XO
+    (XI (XI (XI XH)))))))))))))))))))) d
+
+(** val emission : string -> sx list -> (nat * packet) option **)
+
+let emission nm args =
+  let is = fun x -> eqb1 nm x in
+  (match args with
+   | [] -> None
+   | s :: l ->
+     (match s with
+      | SN k0 ->
+        (match l with
+         | [] ->
+           if is (String ((Ascii (false, true, true, true, false, true, true,
+                false)), (String ((Ascii (true, true, true, true, false,
+                true, true, false)), (String ((Ascii (false, true, true,
+                true, false, true, true, false)), (String ((Ascii (true,
+                true, false, false, false, true, true, false)), (String
+                ((Ascii (true, false, true, false, false, true, true,
+                false)), EmptyString))))))))))
+           then Some ((small0 k0), PPong)
+           else None
+         | s0 :: l0 ->
+           (match s0 with
+            | SN a ->
+              (match l0 with
+               | [] ->
+                 if is (String ((Ascii (true, false, true, false, true, true,
+                      true, false)), (String ((Ascii (false, true, true,
+                      true, false, true, true, false)), (String ((Ascii
+                      (true, true, false, true, false, true, true, false)),
+                      EmptyString))))))
+                 then Some ((small0 k0), (PAnswer ((unknown_id a), a)))
+                 else if is (String ((Ascii (true, true, false, false, true,
+                           true, true, false)), (String ((Ascii (false,
+                           false, false, true, false, true, true, false)),
+                           (String ((Ascii (true, true, true, true, false,
+                           true, true, false)), (String ((Ascii (false, true,
+                           false, false, true, true, true, false)), (String
+                           ((Ascii (false, false, true, false, true, true,
+                           true, false)), EmptyString))))))))))
+                      then Some ((small0 k0), PJunk)
+                      else if is (String ((Ascii (false, false, false, false,
+                                true, true, true, false)), (String ((Ascii
+                                (true, true, true, true, false, true, true,
+                                false)), (String ((Ascii (false, true, true,
+                                true, false, true, true, false)), (String
+                                ((Ascii (true, true, true, false, false,
+                                true, true, false)), EmptyString))))))))
+                           then Some ((small0 k0), PPong)
+                           else if is (String ((Ascii (false, true, false,
+                                     true, false, true, true, false)),
+                                     (String ((Ascii (true, false, true,
+                                     false, true, true, true, false)),
+                                     (String ((Ascii (false, true, true,
+                                     true, false, true, true, false)),
+                                     (String ((Ascii (true, true, false,
+                                     true, false, true, true, false)),
+                                     EmptyString))))))))
+                                then Some ((small0 k0), PJunk)
+                                else None
+               | s1 :: l1 ->
+                 (match s1 with
+                  | SN d ->
+                    (match l1 with
+                     | [] ->
+                       if is (String ((Ascii (true, false, false, false,
+                            false, true, true, false)), (String ((Ascii
+                            (false, true, true, true, false, true, true,
+                            false)), (String ((Ascii (true, true, false,
+                            false, true, true, true, false)),
+                            EmptyString))))))
+                       then Some ((small0 k0), (PAnswer ((qid (small0 a)),
+                              d)))
+                       else if is (String ((Ascii (true, false, true, true,
+                                 false, true, true, false)), (String ((Ascii
+                                 (true, false, false, false, false, true,
+                                 true, false)), (String ((Ascii (false,
+                                 false, true, true, false, true, true,
+                                 false)), EmptyString))))))
+                            then Some ((small0 k0), (PMalformed
+                                   (qid (small0 a))))
+                            else if is (String ((Ascii (true, true, true,
+                                      false, true, true, true, false)),
+                                      (String ((Ascii (false, true, false,
+                                      false, true, true, true, false)),
+                                      (String ((Ascii (true, true, true,
+                                      true, false, true, true, false)),
+                                      (String ((Ascii (false, true, true,
+                                      true, false, true, true, false)),
+                                      (String ((Ascii (true, true, true,
+                                      false, false, true, true, false)),
+                                      EmptyString))))))))))
+                                 then Some ((small0 k0), PJunk)
+                                 else None
+                     | _ :: _ -> None)
+                  | _ -> None))
+            | _ -> None))
+      | _ -> None))
+
+(** val out_result : call_pc -> sx **)
+
+let out_result = function
+| CInit ->
+  SA (String ((Ascii (false, true, true, true, false, true, true, false)),
+    (String ((Ascii (true, true, true, true, false, true, true, false)),
+    (String ((Ascii (false, false, true, false, true, true, true, false)),
+    (String ((Ascii (true, true, false, false, true, true, true, false)),
+    (String ((Ascii (false, false, true, false, true, true, true, false)),
+    (String ((Ascii (true, false, false, false, false, true, true, false)),
+    (String ((Ascii (false, true, false, false, true, true, true, false)),
+    (String ((Ascii (false, false, true, false, true, true, true, false)),
+    (String ((Ascii (true, false, true, false, false, true, true, false)),
+    (String ((Ascii (false, false, true, false, false, true, true, false)),
+    EmptyString))))))))))))))))))))
+| CReturned r0 ->
+  (match r0 with
+   | ROk0 d ->
+     SL ((SA (String ((Ascii (true, true, true, true, false, true, true,
+       false)), (String ((Ascii (true, true, false, true, false, true, true,
+       false)), EmptyString))))) :: ((SN d) :: []))
+   | RTimeout0 ->
+     SA (String ((Ascii (true, false, true, false, false, true, true,
+       false)), (String ((Ascii (false, false, false, true, true, true, true,
+       false)), (String ((Ascii (false, false, false, false, true, true,
+       true, false)), (String ((Ascii (true, false, false, true, false, true,
+       true, false)), (String ((Ascii (false, true, false, false, true, true,
+       true, false)), (String ((Ascii (true, false, true, false, false, true,
+       true, false)), (String ((Ascii (false, false, true, false, false,
+       true, true, false)), EmptyString))))))))))))))
+   | RSendErr ->
+     SA (String ((Ascii (true, false, true, false, false, true, true,
+       false)), (String ((Ascii (false, true, false, false, true, true, true,
+       false)), (String ((Ascii (false, true, false, false, true, true, true,
+       false)), EmptyString)))))))
+| _ ->
+  sx_err (String ((Ascii (false, true, true, true, false, true, true,
+    false)), (String ((Ascii (true, true, true, true, false, true, true,
+    false)), (String ((Ascii (false, false, true, false, true, true, true,
+    false)), (String ((Ascii (false, false, false, false, false, true, false,
+    false)), (String ((Ascii (false, true, false, false, true, true, true,
+    false)), (String ((Ascii (true, false, true, false, false, true, true,
+    false)), (String ((Ascii (false, false, true, false, true, true, true,
+    false)), (String ((Ascii (true, false, true, false, true, true, true,
+    false)), (String ((Ascii (false, true, false, false, true, true, true,
+    false)), (String ((Ascii (false, true, true, true, false, true, true,
+    false)), (String ((Ascii (true, false, true, false, false, true, true,
+    false)), (String ((Ascii (false, false, true, false, false, true, true,
+    false)), EmptyString))))))))))))))))))))))))
+
+(** val finish_call : nat -> state0 -> nat -> state0 option **)
+
+let finish_call nconn s i =
+  match s.pc i with
+  | CSent ->
+    exec nconn qid s
+      ((match s.ch0 i with
+        | Some _ -> LRecv0 i
+        | None -> LTimeout i) :: ((LUnregister i) :: []))
+  | _ -> Some s
+
+(** val finish_all : nat -> nat -> state0 -> nat -> state0 option **)
+
+let rec finish_all nconn n0 s i =
+  match n0 with
+  | O -> Some s
+  | S n' ->
+    (match finish_call nconn s i with
+     | Some s' -> finish_all nconn n' s' (S i)
+     | None -> None)
+
+(** val outcomes : nat -> state0 -> sx **)
+
+let outcomes ncalls s =
+  SL (map (fun i -> out_result (s.pc i)) (seq O ncalls))
+
+(** val interp :
+    nat -> nat -> sx list -> state0 -> sx list -> (state0 * sx list) option **)
+
+let rec interp nconn ncalls ops s regs =
+  match ops with
+  | [] -> Some (s, (rev regs))
+  | s0 :: t ->
+    (match s0 with
+     | SL l ->
+       (match l with
+        | [] -> None
+        | s1 :: args ->
+          (match s1 with
+           | SA nm ->
+             let is = fun x -> eqb1 nm x in
+             if is (String ((Ascii (true, true, false, false, true, true,
+                  true, false)), (String ((Ascii (false, false, true, false,
+                  true, true, true, false)), (String ((Ascii (true, false,
+                  false, false, false, true, true, false)), (String ((Ascii
+                  (false, true, false, false, true, true, true, false)),
+                  (String ((Ascii (false, false, true, false, true, true,
+                  true, false)), EmptyString))))))))))
+             then (match args with
+                   | [] -> None
+                   | s2 :: l0 ->
+                     (match s2 with
+                      | SN i ->
+                        (match l0 with
+                         | [] ->
+                           (match exec nconn qid s ((LRegister
+                                    (small0 i)) :: ((LPick
+                                    (small0 i)) :: ((LSendOk
+                                    (small0 i)) :: []))) with
+                            | Some s' -> interp nconn ncalls t s' regs
+                            | None -> None)
+                         | _ :: _ -> None)
+                      | _ -> None))
+             else if is (String ((Ascii (false, true, true, false, false,
+                       true, true, false)), (String ((Ascii (true, false,
+                       false, true, false, true, true, false)), (String
+                       ((Ascii (false, true, true, true, false, true, true,
+                       false)), (String ((Ascii (true, false, false, true,
+                       false, true, true, false)), (String ((Ascii (true,
+                       true, false, false, true, true, true, false)), (String
+                       ((Ascii (false, false, false, true, false, true, true,
+                       false)), EmptyString))))))))))))
+                  then (match finish_all nconn ncalls s O with
+                        | Some s' -> interp nconn ncalls t s' regs
+                        | None -> None)
+                  else if is (String ((Ascii (false, true, false, false,
+                            true, true, true, false)), (String ((Ascii (true,
+                            false, true, false, false, true, true, false)),
+                            (String ((Ascii (true, true, true, false, false,
+                            true, true, false)), EmptyString))))))
+                       then interp nconn ncalls t s
+                              ((sx_nat (length s.reg)) :: regs)
+                       else if is (String ((Ascii (false, false, true, false,
+                                 false, true, true, false)), (String ((Ascii
+                                 (false, true, false, false, true, true,
+                                 true, false)), (String ((Ascii (true, true,
+                                 true, true, false, true, true, false)),
+                                 (String ((Ascii (false, false, false, false,
+                                 true, true, true, false)),
+                                 EmptyString))))))))
+                            then (match args with
+                                  | [] -> None
+                                  | s2 :: _ ->
+                                    (match s2 with
+                                     | SN k0 ->
+                                       (match step1 nconn qid s (LDrop
+                                                (small0 k0)) with
+                                        | Some s' ->
+                                          interp nconn ncalls t s' regs
+                                        | None -> None)
+                                     | _ -> None))
+                            else (match emission nm args with
+                                  | Some p0 ->
+                                    let (k0, p) = p0 in
+                                    (match exec nconn qid s ((LEmit (k0,
+                                             p)) :: ((LDeliver k0) :: [])) with
+                                     | Some s' ->
+                                       interp nconn ncalls t s' regs
+                                     | None -> None)
+                                  | None -> None)
+           | _ -> None))
+     | _ -> None)
+
+(** val run_script : sx -> sx **)
+
+let run_script = function
+| SL l ->
+  (match l with
+   | [] ->
+     sx_err (String ((Ascii (true, true, false, false, true, true, true,
+       false)), (String ((Ascii (true, true, false, false, false, true, true,
+       false)), (String ((Ascii (false, true, false, false, true, true, true,
+       false)), (String ((Ascii (true, false, false, true, false, true, true,
+       false)), (String ((Ascii (false, false, false, false, true, true,
+       true, false)), (String ((Ascii (false, false, true, false, true, true,
+       true, false)), EmptyString))))))))))))
+   | s :: l0 ->
+     (match s with
+      | SN nc ->
+        (match l0 with
+         | [] ->
+           sx_err (String ((Ascii (true, true, false, false, true, true,
+             true, false)), (String ((Ascii (true, true, false, false, false,
+             true, true, false)), (String ((Ascii (false, true, false, false,
+             true, true, true, false)), (String ((Ascii (true, false, false,
+             true, false, true, true, false)), (String ((Ascii (false, false,
+             false, false, true, true, true, false)), (String ((Ascii (false,
+             false, true, false, true, true, true, false)),
+             EmptyString))))))))))))
+         | s0 :: l1 ->
+           (match s0 with
+            | SN n0 ->
+              (match l1 with
+               | [] ->
+                 sx_err (String ((Ascii (true, true, false, false, true,
+                   true, true, false)), (String ((Ascii (true, true, false,
+                   false, false, true, true, false)), (String ((Ascii (false,
+                   true, false, false, true, true, true, false)), (String
+                   ((Ascii (true, false, false, true, false, true, true,
+                   false)), (String ((Ascii (false, false, false, false,
+                   true, true, true, false)), (String ((Ascii (false, false,
+                   true, false, true, true, true, false)),
+                   EmptyString))))))))))))
+               | s1 :: l2 ->
+                 (match s1 with
+                  | SL ops ->
+                    (match l2 with
+                     | [] ->
+                       let nconn = small0 nc in
+                       let ncalls = small0 n0 in
+                       (match interp nconn ncalls ops init_state0 [] with
+                        | Some p ->
+                          let (s2, regs) = p in
+                          SL ((outcomes ncalls s2) :: ((SL regs) :: []))
+                        | None ->
+                          sx_err (String ((Ascii (true, true, false, false,
+                            true, true, true, false)), (String ((Ascii (true,
+                            true, false, false, false, true, true, false)),
+                            (String ((Ascii (false, true, false, false, true,
+                            true, true, false)), (String ((Ascii (true,
+                            false, false, true, false, true, true, false)),
+                            (String ((Ascii (false, false, false, false,
+                            true, true, true, false)), (String ((Ascii
+                            (false, false, true, false, true, true, true,
+                            false)), (String ((Ascii (false, false, false,
+                            false, false, true, false, false)), (String
+                            ((Ascii (false, true, false, false, false, true,
+                            true, false)), (String ((Ascii (false, false,
+                            true, true, false, true, true, false)), (String
+                            ((Ascii (true, true, true, true, false, true,
+                            true, false)), (String ((Ascii (true, true,
+                            false, false, false, true, true, false)), (String
+                            ((Ascii (true, true, false, true, false, true,
+                            true, false)), (String ((Ascii (true, false,
+                            true, false, false, true, true, false)), (String
+                            ((Ascii (false, false, true, false, false, true,
+                            true, false)),
+                            EmptyString)))))))))))))))))))))))))))))
+                     | _ :: _ ->
+                       sx_err (String ((Ascii (true, true, false, false,
+                         true, true, true, false)), (String ((Ascii (true,
+                         true, false, false, false, true, true, false)),
+                         (String ((Ascii (false, true, false, false, true,
+                         true, true, false)), (String ((Ascii (true, false,
+                         false, true, false, true, true, false)), (String
+                         ((Ascii (false, false, false, false, true, true,
+                         true, false)), (String ((Ascii (false, false, true,
+                         false, true, true, true, false)),
+                         EmptyString)))))))))))))
+                  | _ ->
+                    sx_err (String ((Ascii (true, true, false, false, true,
+                      true, true, false)), (String ((Ascii (true, true,
+                      false, false, false, true, true, false)), (String
+                      ((Ascii (false, true, false, false, true, true, true,
+                      false)), (String ((Ascii (true, false, false, true,
+                      false, true, true, false)), (String ((Ascii (false,
+                      false, false, false, true, true, true, false)), (String
+                      ((Ascii (false, false, true, false, true, true, true,
+                      false)), EmptyString))))))))))))))
+            | _ ->
+              sx_err (String ((Ascii (true, true, false, false, true, true,
+                true, false)), (String ((Ascii (true, true, false, false,
+                false, true, true, false)), (String ((Ascii (false, true,
+                false, false, true, true, true, false)), (String ((Ascii
+                (true, false, false, true, false, true, true, false)),
+                (String ((Ascii (false, false, false, false, true, true,
+                true, false)), (String ((Ascii (false, false, true, false,
+                true, true, true, false)), EmptyString))))))))))))))
+      | _ ->
+        sx_err (String ((Ascii (true, true, false, false, true, true, true,
+          false)), (String ((Ascii (true, true, false, false, false, true,
+          true, false)), (String ((Ascii (false, true, false, false, true,
+          true, true, false)), (String ((Ascii (true, false, false, true,
+          false, true, true, false)), (String ((Ascii (false, false, false,
+          false, true, true, true, false)), (String ((Ascii (false, false,
+          true, false, true, true, true, false)), EmptyString))))))))))))))
+| _ ->
+  sx_err (String ((Ascii (true, true, false, false, true, true, true,
+    false)), (String ((Ascii (true, true, false, false, false, true, true,
+    false)), (String ((Ascii (false, true, false, false, true, true, true,
+    false)), (String ((Ascii (true, false, false, true, false, true, true,
+    false)), (String ((Ascii (false, false, false, false, true, true, true,
+    false)), (String ((Ascii (false, false, true, false, true, true, true,
+    false)), EmptyString))))))))))))
+
+type obs =
+| OOk of n
+| OExpired
+| OErr
+
+(** val parse_obs : sx -> obs option **)
+
+let parse_obs = function
+| SA nm ->
+  if eqb1 nm (String ((Ascii (true, false, true, false, false, true, true,
+       false)), (String ((Ascii (false, false, false, true, true, true, true,
+       false)), (String ((Ascii (false, false, false, false, true, true,
+       true, false)), (String ((Ascii (true, false, false, true, false, true,
+       true, false)), (String ((Ascii (false, true, false, false, true, true,
+       true, false)), (String ((Ascii (true, false, true, false, false, true,
+       true, false)), (String ((Ascii (false, false, true, false, false,
+       true, true, false)), EmptyString))))))))))))))
+  then Some OExpired
+  else if eqb1 nm (String ((Ascii (true, false, true, false, false, true,
+            true, false)), (String ((Ascii (false, true, false, false, true,
+            true, true, false)), (String ((Ascii (false, true, false, false,
+            true, true, true, false)), EmptyString))))))
+       then Some OErr
+       else None
+| SL l ->
+  (match l with
+   | [] -> None
+   | s :: l0 ->
+     (match s with
+      | SA nm ->
+        (match l0 with
+         | [] -> None
+         | s0 :: l1 ->
+           (match s0 with
+            | SN d ->
+              (match l1 with
+               | [] ->
+                 if eqb1 nm (String ((Ascii (true, true, true, true, false,
+                      true, true, false)), (String ((Ascii (true, true,
+                      false, true, false, true, true, false)), EmptyString))))
+                 then Some (OOk d)
+                 else None
+               | _ :: _ -> None)
+            | _ -> None))
+      | _ -> None))
+| _ -> None
+
+(** val parse_all : (sx -> 'a1 option) -> sx list -> 'a1 list option **)
+
+let rec parse_all f = function
+| [] -> Some []
+| x :: t ->
+  (match f x with
+   | Some a ->
+     (match parse_all f t with
+      | Some r -> Some (a :: r)
+      | None -> None)
+   | None -> None)
+
+(** val parse_emission : sx -> (nat * packet) option **)
+
+let parse_emission = function
+| SL l ->
+  (match l with
+   | [] -> None
+   | s :: args -> (match s with
+                   | SA nm -> emission nm args
+                   | _ -> None))
+| _ -> None
+
+(** val safe_head : state0 -> obs list -> packet -> bool **)
+
+let safe_head s ob = function
+| PAnswer (id, d) ->
+  (match lookup0 id s.reg with
+   | Some i ->
+     (match nth_error ob i with
+      | Some o -> (match o with
+                   | OOk d' -> N.eqb d d'
+                   | _ -> false)
+      | None -> false)
+   | None -> true)
+| PMalformed id ->
+  (match lookup0 id s.reg with
+   | Some i ->
+     (match nth_error ob i with
+      | Some o -> (match o with
+                   | OExpired -> true
+                   | _ -> false)
+      | None -> false)
+   | None -> true)
+| _ -> true
+
+(** val find_safe : state0 -> obs list -> nat list -> nat option **)
+
+let rec find_safe s ob = function
+| [] -> None
+| k0 :: t ->
+  (match s.wire k0 with
+   | [] -> find_safe s ob t
+   | p :: _ -> if safe_head s ob p then Some k0 else find_safe s ob t)
+
+(** val wires_empty : state0 -> nat list -> bool **)
+
+let wires_empty s ks =
+  forallb (fun k0 -> match s.wire k0 with
+                     | [] -> true
+                     | _ :: _ -> false) ks
+
+(** val schedule : nat -> nat -> state0 -> obs list -> state0 option **)
+
+let rec schedule fuel nconn s ob =
+  if wires_empty s (seq O nconn)
+  then Some s
+  else (match fuel with
+        | O -> None
+        | S f ->
+          (match find_safe s ob (seq O nconn) with
+           | Some k0 ->
+             (match step1 nconn qid s (LDeliver k0) with
+              | Some s' -> schedule f nconn s' ob
+              | None -> None)
+           | None -> None))
+
+(** val start_calls : nat -> label0 list **)
+
+let start_calls n0 =
+  flat_map (fun i -> (LRegister i) :: ((LPick i) :: ((LSendOk i) :: [])))
+    (seq O n0)
+
+(** val obs_sx : obs -> sx **)
+
+let obs_sx = function
+| OOk d ->
+  SL ((SA (String ((Ascii (true, true, true, true, false, true, true,
+    false)), (String ((Ascii (true, true, false, true, false, true, true,
+    false)), EmptyString))))) :: ((SN d) :: []))
+| OExpired ->
+  SA (String ((Ascii (true, false, true, false, false, true, true, false)),
+    (String ((Ascii (false, false, false, true, true, true, true, false)),
+    (String ((Ascii (false, false, false, false, true, true, true, false)),
+    (String ((Ascii (true, false, false, true, false, true, true, false)),
+    (String ((Ascii (false, true, false, false, true, true, true, false)),
+    (String ((Ascii (true, false, true, false, false, true, true, false)),
+    (String ((Ascii (false, false, true, false, false, true, true, false)),
+    EmptyString))))))))))))))
+| OErr ->
+  SA (String ((Ascii (true, false, true, false, false, true, true, false)),
+    (String ((Ascii (false, true, false, false, true, true, true, false)),
+    (String ((Ascii (false, true, false, false, true, true, true, false)),
+    EmptyString))))))
+
+(** val sx_eqb_outcome : sx -> sx -> bool **)
+
+let sx_eqb_outcome a b =
+  match a with
+  | SA x -> (match b with
+             | SA y -> eqb1 x y
+             | _ -> false)
+  | SL l ->
+    (match l with
+     | [] -> false
+     | s :: l0 ->
+       (match s with
+        | SA x ->
+          (match l0 with
+           | [] -> false
+           | s0 :: l1 ->
+             (match s0 with
+              | SN d ->
+                (match l1 with
+                 | [] ->
+                   (match b with
+                    | SL l2 ->
+                      (match l2 with
+                       | [] -> false
+                       | s1 :: l3 ->
+                         (match s1 with
+                          | SA y ->
+                            (match l3 with
+                             | [] -> false
+                             | s2 :: l4 ->
+                               (match s2 with
+                                | SN e ->
+                                  (match l4 with
+                                   | [] -> (&&) (eqb1 x y) (N.eqb d e)
+                                   | _ :: _ -> false)
+                                | _ -> false))
+                          | _ -> false))
+                    | _ -> false)
+                 | _ :: _ -> false)
+              | _ -> false))
+        | _ -> false))
+  | _ -> false
+
+(** val all2 : ('a1 -> 'a1 -> bool) -> 'a1 list -> 'a1 list -> bool **)
+
+let rec all2 f l1 l2 =
+  match l1 with
+  | [] -> (match l2 with
+           | [] -> true
+           | _ :: _ -> false)
+  | x :: t1 ->
+    (match l2 with
+     | [] -> false
+     | y :: t2 -> (&&) (f x y) (all2 f t1 t2))
+
+(** val run_race : sx -> sx **)
+
+let run_race = function
+| SL l ->
+  (match l with
+   | [] ->
+     sx_err (String ((Ascii (false, true, false, false, true, true, true,
+       false)), (String ((Ascii (true, false, false, false, false, true,
+       true, false)), (String ((Ascii (true, true, false, false, false, true,
+       true, false)), (String ((Ascii (true, false, true, false, false, true,
+       true, false)), EmptyString))))))))
+   | s :: l0 ->
+     (match s with
+      | SN nc ->
+        (match l0 with
+         | [] ->
+           sx_err (String ((Ascii (false, true, false, false, true, true,
+             true, false)), (String ((Ascii (true, false, false, false,
+             false, true, true, false)), (String ((Ascii (true, true, false,
+             false, false, true, true, false)), (String ((Ascii (true, false,
+             true, false, false, true, true, false)), EmptyString))))))))
+         | s0 :: l1 ->
+           (match s0 with
+            | SN n0 ->
+              (match l1 with
+               | [] ->
+                 sx_err (String ((Ascii (false, true, false, false, true,
+                   true, true, false)), (String ((Ascii (true, false, false,
+                   false, false, true, true, false)), (String ((Ascii (true,
+                   true, false, false, false, true, true, false)), (String
+                   ((Ascii (true, false, true, false, false, true, true,
+                   false)), EmptyString))))))))
+               | s1 :: l2 ->
+                 (match s1 with
+                  | SL ems ->
+                    (match l2 with
+                     | [] ->
+                       sx_err (String ((Ascii (false, true, false, false,
+                         true, true, true, false)), (String ((Ascii (true,
+                         false, false, false, false, true, true, false)),
+                         (String ((Ascii (true, true, false, false, false,
+                         true, true, false)), (String ((Ascii (true, false,
+                         true, false, false, true, true, false)),
+                         EmptyString))))))))
+                     | s2 :: l3 ->
+                       (match s2 with
+                        | SL outs ->
+                          (match l3 with
+                           | [] ->
+                             let nconn = small0 nc in
+                             let ncalls = small0 n0 in
+                             (match parse_all parse_emission ems with
+                              | Some es ->
+                                (match parse_all parse_obs outs with
+                                 | Some ob ->
+                                   (match exec nconn qid init_state0
+                                            (app (start_calls ncalls)
+                                              (map (fun e -> LEmit ((fst e),
+                                                (snd e))) es)) with
+                                    | Some s3 ->
+                                      (match schedule (length es) nconn s3 ob with
+                                       | Some s4 ->
+                                         (match finish_all nconn ncalls s4 O with
+                                          | Some s5 ->
+                                            if all2 sx_eqb_outcome
+                                                 (map (fun i ->
+                                                   out_result (s5.pc i))
+                                                   (seq O ncalls))
+                                                 (map obs_sx ob)
+                                            then SL ((SA (String ((Ascii
+                                                   (true, false, false,
+                                                   false, false, true, true,
+                                                   false)), (String ((Ascii
+                                                   (true, true, false, false,
+                                                   false, true, true,
+                                                   false)), (String ((Ascii
+                                                   (true, true, false, false,
+                                                   false, true, true,
+                                                   false)), (String ((Ascii
+                                                   (true, false, true, false,
+                                                   false, true, true,
+                                                   false)), (String ((Ascii
+                                                   (false, false, false,
+                                                   false, true, true, true,
+                                                   false)), (String ((Ascii
+                                                   (false, false, true,
+                                                   false, true, true, true,
+                                                   false)),
+                                                   EmptyString))))))))))))) :: (
+                                                   (sx_nat (length s5.reg)) :: []))
+                                            else SL ((SA (String ((Ascii
+                                                   (false, true, false,
+                                                   false, true, true, true,
+                                                   false)), (String ((Ascii
+                                                   (true, false, true, false,
+                                                   false, true, true,
+                                                   false)), (String ((Ascii
+                                                   (false, true, false, true,
+                                                   false, true, true,
+                                                   false)), (String ((Ascii
+                                                   (true, false, true, false,
+                                                   false, true, true,
+                                                   false)), (String ((Ascii
+                                                   (true, true, false, false,
+                                                   false, true, true,
+                                                   false)), (String ((Ascii
+                                                   (false, false, true,
+                                                   false, true, true, true,
+                                                   false)),
+                                                   EmptyString))))))))))))) :: ((SA
+                                                   (String ((Ascii (false,
+                                                   true, false, false, true,
+                                                   true, true, false)),
+                                                   (String ((Ascii (true,
+                                                   false, true, false, false,
+                                                   true, true, false)),
+                                                   (String ((Ascii (true,
+                                                   true, false, false, true,
+                                                   true, true, false)),
+                                                   (String ((Ascii (true,
+                                                   false, true, false, true,
+                                                   true, true, false)),
+                                                   (String ((Ascii (false,
+                                                   false, true, true, false,
+                                                   true, true, false)),
+                                                   (String ((Ascii (false,
+                                                   false, true, false, true,
+                                                   true, true, false)),
+                                                   (String ((Ascii (true,
+                                                   true, false, false, true,
+                                                   true, true, false)),
+                                                   EmptyString))))))))))))))) :: []))
+                                          | None ->
+                                            SL ((SA (String ((Ascii (false,
+                                              true, false, false, true, true,
+                                              true, false)), (String ((Ascii
+                                              (true, false, true, false,
+                                              false, true, true, false)),
+                                              (String ((Ascii (false, true,
+                                              false, true, false, true, true,
+                                              false)), (String ((Ascii (true,
+                                              false, true, false, false,
+                                              true, true, false)), (String
+                                              ((Ascii (true, true, false,
+                                              false, false, true, true,
+                                              false)), (String ((Ascii
+                                              (false, false, true, false,
+                                              true, true, true, false)),
+                                              EmptyString))))))))))))) :: ((SA
+                                              (String ((Ascii (false, true,
+                                              true, false, false, true, true,
+                                              false)), (String ((Ascii (true,
+                                              false, false, true, false,
+                                              true, true, false)), (String
+                                              ((Ascii (false, true, true,
+                                              true, false, true, true,
+                                              false)), (String ((Ascii (true,
+                                              false, false, true, false,
+                                              true, true, false)), (String
+                                              ((Ascii (true, true, false,
+                                              false, true, true, true,
+                                              false)), (String ((Ascii
+                                              (false, false, false, true,
+                                              false, true, true, false)),
+                                              EmptyString))))))))))))) :: [])))
+                                       | None ->
+                                         SL ((SA (String ((Ascii (false,
+                                           true, false, false, true, true,
+                                           true, false)), (String ((Ascii
+                                           (true, false, true, false, false,
+                                           true, true, false)), (String
+                                           ((Ascii (false, true, false, true,
+                                           false, true, true, false)),
+                                           (String ((Ascii (true, false,
+                                           true, false, false, true, true,
+                                           false)), (String ((Ascii (true,
+                                           true, false, false, false, true,
+                                           true, false)), (String ((Ascii
+                                           (false, false, true, false, true,
+                                           true, true, false)),
+                                           EmptyString))))))))))))) :: ((SA
+                                           (String ((Ascii (false, true,
+                                           true, true, false, true, true,
+                                           false)), (String ((Ascii (true,
+                                           true, true, true, false, true,
+                                           true, false)), (String ((Ascii
+                                           (true, false, true, true, false,
+                                           true, false, false)), (String
+                                           ((Ascii (true, true, true, true,
+                                           false, true, true, false)),
+                                           (String ((Ascii (false, true,
+                                           false, false, true, true, true,
+                                           false)), (String ((Ascii (false,
+                                           false, true, false, false, true,
+                                           true, false)), (String ((Ascii
+                                           (true, false, true, false, false,
+                                           true, true, false)), (String
+                                           ((Ascii (false, true, false,
+                                           false, true, true, true, false)),
+                                           (String ((Ascii (true, false,
+                                           true, true, false, true, false,
+                                           false)), (String ((Ascii (true,
+                                           true, true, true, false, true,
+                                           true, false)), (String ((Ascii
+                                           (false, true, true, false, false,
+                                           true, true, false)), (String
+                                           ((Ascii (true, false, true, true,
+                                           false, true, false, false)),
+                                           (String ((Ascii (false, true,
+                                           false, false, true, true, true,
+                                           false)), (String ((Ascii (true,
+                                           false, true, false, false, true,
+                                           true, false)), (String ((Ascii
+                                           (true, false, false, false, false,
+                                           true, true, false)), (String
+                                           ((Ascii (false, false, true,
+                                           false, false, true, true, false)),
+                                           (String ((Ascii (true, false,
+                                           true, false, false, true, true,
+                                           false)), (String ((Ascii (false,
+                                           true, false, false, true, true,
+                                           true, false)), (String ((Ascii
+                                           (true, false, true, true, false,
+                                           true, false, false)), (String
+                                           ((Ascii (true, true, false, false,
+                                           true, true, true, false)), (String
+                                           ((Ascii (false, false, true,
+                                           false, true, true, true, false)),
+                                           (String ((Ascii (true, false,
+                                           true, false, false, true, true,
+                                           false)), (String ((Ascii (false,
+                                           false, false, false, true, true,
+                                           true, false)), (String ((Ascii
+                                           (true, true, false, false, true,
+                                           true, true, false)), (String
+                                           ((Ascii (true, false, true, true,
+                                           false, true, false, false)),
+                                           (String ((Ascii (true, true, true,
+                                           false, false, true, true, false)),
+                                           (String ((Ascii (true, false,
+                                           false, true, false, true, true,
+                                           false)), (String ((Ascii (false,
+                                           true, true, false, true, true,
+                                           true, false)), (String ((Ascii
+                                           (true, false, true, false, false,
+                                           true, true, false)), (String
+                                           ((Ascii (true, true, false, false,
+                                           true, true, true, false)), (String
+                                           ((Ascii (true, false, true, true,
+                                           false, true, false, false)),
+                                           (String ((Ascii (false, false,
+                                           true, false, true, true, true,
+                                           false)), (String ((Ascii (false,
+                                           false, false, true, false, true,
+                                           true, false)), (String ((Ascii
+                                           (true, false, true, false, false,
+                                           true, true, false)), (String
+                                           ((Ascii (true, true, false, false,
+                                           true, true, true, false)), (String
+                                           ((Ascii (true, false, true, false,
+                                           false, true, true, false)),
+                                           (String ((Ascii (true, false,
+                                           true, true, false, true, false,
+                                           false)), (String ((Ascii (false,
+                                           true, false, false, true, true,
+                                           true, false)), (String ((Ascii
+                                           (true, false, true, false, false,
+                                           true, true, false)), (String
+                                           ((Ascii (true, true, false, false,
+                                           true, true, true, false)), (String
+                                           ((Ascii (true, false, true, false,
+                                           true, true, true, false)), (String
+                                           ((Ascii (false, false, true, true,
+                                           false, true, true, false)),
+                                           (String ((Ascii (false, false,
+                                           true, false, true, true, true,
+                                           false)), (String ((Ascii (true,
+                                           true, false, false, true, true,
+                                           true, false)),
+                                           EmptyString))))))))))))))))))))))))))))))))))))))))))))))))))))))))))))))))))))))))))))))))))))))))) :: [])))
+                                    | None ->
+                                      SL ((SA (String ((Ascii (false, true,
+                                        false, false, true, true, true,
+                                        false)), (String ((Ascii (true,
+                                        false, true, false, false, true,
+                                        true, false)), (String ((Ascii
+                                        (false, true, false, true, false,
+                                        true, true, false)), (String ((Ascii
+                                        (true, false, true, false, false,
+                                        true, true, false)), (String ((Ascii
+                                        (true, true, false, false, false,
+                                        true, true, false)), (String ((Ascii
+                                        (false, false, true, false, true,
+                                        true, true, false)),
+                                        EmptyString))))))))))))) :: ((SA
+                                        (String ((Ascii (true, false, true,
+                                        false, false, true, true, false)),
+                                        (String ((Ascii (true, false, true,
+                                        true, false, true, true, false)),
+                                        (String ((Ascii (true, false, false,
+                                        true, false, true, true, false)),
+                                        (String ((Ascii (false, false, true,
+                                        false, true, true, true, false)),
+                                        EmptyString))))))))) :: [])))
+                                 | None ->
+                                   sx_err (String ((Ascii (false, true,
+                                     false, false, true, true, true, false)),
+                                     (String ((Ascii (true, false, false,
+                                     false, false, true, true, false)),
+                                     (String ((Ascii (true, true, false,
+                                     false, false, true, true, false)),
+                                     (String ((Ascii (true, false, true,
+                                     false, false, true, true, false)),
+                                     (String ((Ascii (false, false, false,
+                                     false, false, true, false, false)),
+                                     (String ((Ascii (true, true, true, true,
+                                     false, true, true, false)), (String
+                                     ((Ascii (false, false, false, false,
+                                     true, true, true, false)), (String
+                                     ((Ascii (true, true, false, false, true,
+                                     true, true, false)),
+                                     EmptyString)))))))))))))))))
+                              | None ->
+                                sx_err (String ((Ascii (false, true, false,
+                                  false, true, true, true, false)), (String
+                                  ((Ascii (true, false, false, false, false,
+                                  true, true, false)), (String ((Ascii (true,
+                                  true, false, false, false, true, true,
+                                  false)), (String ((Ascii (true, false,
+                                  true, false, false, true, true, false)),
+                                  (String ((Ascii (false, false, false,
+                                  false, false, true, false, false)), (String
+                                  ((Ascii (true, true, true, true, false,
+                                  true, true, false)), (String ((Ascii
+                                  (false, false, false, false, true, true,
+                                  true, false)), (String ((Ascii (true, true,
+                                  false, false, true, true, true, false)),
+                                  EmptyString)))))))))))))))))
+                           | _ :: _ ->
+                             sx_err (String ((Ascii (false, true, false,
+                               false, true, true, true, false)), (String
+                               ((Ascii (true, false, false, false, false,
+                               true, true, false)), (String ((Ascii (true,
+                               true, false, false, false, true, true,
+                               false)), (String ((Ascii (true, false, true,
+                               false, false, true, true, false)),
+                               EmptyString)))))))))
+                        | _ ->
+                          sx_err (String ((Ascii (false, true, false, false,
+                            true, true, true, false)), (String ((Ascii (true,
+                            false, false, false, false, true, true, false)),
+                            (String ((Ascii (true, true, false, false, false,
+                            true, true, false)), (String ((Ascii (true,
+                            false, true, false, false, true, true, false)),
+                            EmptyString))))))))))
+                  | _ ->
+                    sx_err (String ((Ascii (false, true, false, false, true,
+                      true, true, false)), (String ((Ascii (true, false,
+                      false, false, false, true, true, false)), (String
+                      ((Ascii (true, true, false, false, false, true, true,
+                      false)), (String ((Ascii (true, false, true, false,
+                      false, true, true, false)), EmptyString))))))))))
+            | _ ->
+              sx_err (String ((Ascii (false, true, false, false, true, true,
+                true, false)), (String ((Ascii (true, false, false, false,
+                false, true, true, false)), (String ((Ascii (true, true,
+                false, false, false, true, true, false)), (String ((Ascii
+                (true, false, true, false, false, true, true, false)),
+                EmptyString))))))))))
+      | _ ->
+        sx_err (String ((Ascii (false, true, false, false, true, true, true,
+          false)), (String ((Ascii (true, false, false, false, false, true,
+          true, false)), (String ((Ascii (true, true, false, false, false,
+          true, true, false)), (String ((Ascii (true, false, true, false,
+          false, true, true, false)), EmptyString))))))))))
+| _ ->
+  sx_err (String ((Ascii (false, true, false, false, true, true, true,
+    false)), (String ((Ascii (true, false, false, false, false, true, true,
+    false)), (String ((Ascii (true, true, false, false, false, true, true,
+    false)), (String ((Ascii (true, false, true, false, false, true, true,
+    false)), EmptyString))))))))
+
+(** val is_picked : call_pc -> nat -> bool **)
+
+let is_picked p k0 =
+  match p with
+  | CPicked k' -> Nat.eqb k0 k'
+  | _ -> false
+
+(** val picked_conn : call_pc -> nat option **)
+
+let picked_conn = function
+| CPicked k0 -> Some k0
+| _ -> None
+
+(** val event : nat -> state0 -> sx -> state0 option **)
+
+let event nconn s = function
+| SL l ->
+  (match l with
+   | [] -> None
+   | s0 :: args ->
+     (match s0 with
+      | SA nm ->
+        let is = fun x -> eqb1 nm x in
+        let go = exec nconn qid in
+        if is (String ((Ascii (false, true, false, false, true, true, true,
+             false)), (String ((Ascii (true, false, true, false, false, true,
+             true, false)), (String ((Ascii (true, true, false, false, false,
+             true, true, false)), (String ((Ascii (false, true, true, false,
+             true, true, true, false)), EmptyString))))))))
+        then (match args with
+              | [] -> None
+              | s1 :: l0 ->
+                (match s1 with
+                 | SN i ->
+                   (match l0 with
+                    | [] -> None
+                    | s2 :: l1 ->
+                      (match s2 with
+                       | SN k0 ->
+                         (match l1 with
+                          | [] ->
+                            let i0 = small0 i in
+                            (match s.pc i0 with
+                             | CInit ->
+                               (match go s ((LRegister i0) :: ((LPick
+                                        i0) :: [])) with
+                                | Some s3 ->
+                                  if (&&) (is_picked (s3.pc i0) (small0 k0))
+                                       (negb (s3.broken (small0 k0)))
+                                  then go s3 ((LSendOk i0) :: [])
+                                  else None
+                                | None -> None)
+                             | _ -> None)
+                          | _ :: _ -> None)
+                       | _ -> None))
+                 | _ -> None))
+        else if is (String ((Ascii (false, true, false, false, true, true,
+                  true, false)), (String ((Ascii (true, false, true, false,
+                  false, true, true, false)), (String ((Ascii (false, false,
+                  true, false, true, true, true, false)), EmptyString))))))
+             then (match args with
+                   | [] -> None
+                   | s1 :: l0 ->
+                     (match s1 with
+                      | SN i ->
+                        (match l0 with
+                         | [] -> None
+                         | o :: l1 ->
+                           (match l1 with
+                            | [] ->
+                              let i0 = small0 i in
+                              (match s.pc i0 with
+                               | CInit ->
+                                 (match parse_obs o with
+                                  | Some o0 ->
+                                    (match o0 with
+                                     | OOk _ -> None
+                                     | OExpired ->
+                                       (match go s ((LRegister i0) :: ((LPick
+                                                i0) :: [])) with
+                                        | Some s2 ->
+                                          (match picked_conn (s2.pc i0) with
+                                           | Some k0 ->
+                                             if s2.broken k0
+                                             then go s2 ((LSendOk
+                                                    i0) :: ((LTimeout
+                                                    i0) :: ((LUnregister
+                                                    i0) :: [])))
+                                             else None
+                                           | None -> None)
+                                        | None -> None)
+                                     | OErr ->
+                                       go s ((LRegister i0) :: ((LPick
+                                         i0) :: ((LSendFail
+                                         i0) :: ((LUnregister i0) :: [])))))
+                                  | None -> None)
+                               | CSent ->
+                                 (match parse_obs o with
+                                  | Some o0 ->
+                                    (match o0 with
+                                     | OOk d ->
+                                       (match go s ((LRecv0
+                                                i0) :: ((LUnregister
+                                                i0) :: [])) with
+                                        | Some s2 ->
+                                          (match s2.pc i0 with
+                                           | CReturned r ->
+                                             (match r with
+                                              | ROk0 d' ->
+                                                if N.eqb d d'
+                                                then Some s2
+                                                else None
+                                              | _ -> None)
+                                           | _ -> None)
+                                        | None -> None)
+                                     | OExpired ->
+                                       (match s.ch0 i0 with
+                                        | Some _ -> None
+                                        | None ->
+                                          go s ((LTimeout
+                                            i0) :: ((LUnregister i0) :: [])))
+                                     | OErr -> None)
+                                  | None -> None)
+                               | _ -> None)
+                            | _ :: _ -> None))
+                      | _ -> None))
+             else if is (String ((Ascii (false, false, true, false, false,
+                       true, true, false)), (String ((Ascii (false, true,
+                       false, false, true, true, true, false)), (String
+                       ((Ascii (true, true, true, true, false, true, true,
+                       false)), (String ((Ascii (false, false, false, false,
+                       true, true, true, false)), EmptyString))))))))
+                  then (match args with
+                        | [] -> None
+                        | s1 :: _ ->
+                          (match s1 with
+                           | SN k0 -> step1 nconn qid s (LDrop (small0 k0))
+                           | _ -> None))
+                  else if is (String ((Ascii (true, false, true, false, true,
+                            true, true, false)), (String ((Ascii (false,
+                            false, false, false, true, true, true, false)),
+                            EmptyString))))
+                       then (match args with
+                             | [] -> None
+                             | s1 :: l0 ->
+                               (match s1 with
+                                | SN k0 ->
+                                  (match l0 with
+                                   | [] ->
+                                     go s ((LReconnectEnter
+                                       (small0 k0)) :: ((LReconnectDone
+                                       (small0 k0)) :: []))
+                                   | _ :: _ -> None)
+                                | _ -> None))
+                       else if is (String ((Ascii (false, true, false, false,
+                                 true, true, true, false)), (String ((Ascii
+                                 (true, false, true, false, false, true,
+                                 true, false)), (String ((Ascii (true, true,
+                                 true, false, false, true, true, false)),
+                                 EmptyString))))))
+                            then (match args with
+                                  | [] -> None
+                                  | s1 :: l0 ->
+                                    (match s1 with
+                                     | SN n0 ->
+                                       (match l0 with
+                                        | [] ->
+                                          if N.eqb (N.of_nat (length s.reg))
+                                               n0
+                                          then Some s
+                                          else None
+                                        | _ :: _ -> None)
+                                     | _ -> None))
+                            else (match emission nm args with
+                                  | Some p0 ->
+                                    let (k0, p) = p0 in
+                                    go s ((LEmit (k0, p)) :: ((LDeliver
+                                      k0) :: []))
+                                  | None -> None)
+      | _ -> None))
+| _ -> None
+
+(** val events : nat -> state0 -> sx list -> nat -> sx **)
+
+let rec events nconn s es idx =
+  match es with
+  | [] ->
+    SA (String ((Ascii (true, false, false, false, false, true, true,
+      false)), (String ((Ascii (true, true, false, false, false, true, true,
+      false)), (String ((Ascii (true, true, false, false, false, true, true,
+      false)), (String ((Ascii (true, false, true, false, false, true, true,
+      false)), (String ((Ascii (false, false, false, false, true, true, true,
+      false)), (String ((Ascii (false, false, true, false, true, true, true,
+      false)), EmptyString))))))))))))
+  | e :: t ->
+    (match event nconn s e with
+     | Some s' -> events nconn s' t (S idx)
+     | None ->
+       SL ((SA (String ((Ascii (false, true, false, false, true, true, true,
+         false)), (String ((Ascii (true, false, true, false, false, true,
+         true, false)), (String ((Ascii (false, true, false, true, false,
+         true, true, false)), (String ((Ascii (true, false, true, false,
+         false, true, true, false)), (String ((Ascii (true, true, false,
+         false, false, true, true, false)), (String ((Ascii (false, false,
+         true, false, true, true, true, false)),
+         EmptyString))))))))))))) :: ((sx_nat idx) :: [])))
+
+(** val run_seq0 : sx -> sx **)
+
+let run_seq0 = function
+| SL l ->
+  (match l with
+   | [] ->
+     sx_err (String ((Ascii (true, true, false, false, true, true, true,
+       false)), (String ((Ascii (true, false, true, false, false, true, true,
+       false)), (String ((Ascii (true, false, false, false, true, true, true,
+       false)), EmptyString))))))
+   | s :: l0 ->
+     (match s with
+      | SN nc ->
+        (match l0 with
+         | [] ->
+           sx_err (String ((Ascii (true, true, false, false, true, true,
+             true, false)), (String ((Ascii (true, false, true, false, false,
+             true, true, false)), (String ((Ascii (true, false, false, false,
+             true, true, true, false)), EmptyString))))))
+         | _ :: l1 ->
+           (match l1 with
+            | [] ->
+              sx_err (String ((Ascii (true, true, false, false, true, true,
+                true, false)), (String ((Ascii (true, false, true, false,
+                false, true, true, false)), (String ((Ascii (true, false,
+                false, false, true, true, true, false)), EmptyString))))))
+            | s1 :: l2 ->
+              (match s1 with
+               | SL es ->
+                 (match l2 with
+                  | [] -> events (small0 nc) init_state0 es O
+                  | _ :: _ ->
+                    sx_err (String ((Ascii (true, true, false, false, true,
+                      true, true, false)), (String ((Ascii (true, false,
+                      true, false, false, true, true, false)), (String
+                      ((Ascii (true, false, false, false, true, true, true,
+                      false)), EmptyString)))))))
+               | _ ->
+                 sx_err (String ((Ascii (true, true, false, false, true,
+                   true, true, false)), (String ((Ascii (true, false, true,
+                   false, false, true, true, false)), (String ((Ascii (true,
+                   false, false, false, true, true, true, false)),
+                   EmptyString)))))))))
+      | _ ->
+        sx_err (String ((Ascii (true, true, false, false, true, true, true,
+          false)), (String ((Ascii (true, false, true, false, false, true,
+          true, false)), (String ((Ascii (true, false, false, false, true,
+          true, true, false)), EmptyString))))))))
+| _ ->
+  sx_err (String ((Ascii (true, true, false, false, true, true, true,
+    false)), (String ((Ascii (true, false, true, false, false, true, true,
+    false)), (String ((Ascii (true, false, false, false, true, true, true,
+    false)), EmptyString))))))
+
 (** val run : string -> sx -> sx **)
 
 let run name a =
@@ -14526,6 +16041,275 @@ let run name a =
                                                                     then 
                                                                     run_clock
                                                                     a
+                                                                    else 
+                                                                    if 
+                                                                    is
+                                                                    (String
+                                                                    ((Ascii
+                                                                    (true,
+                                                                    true,
+                                                                    false,
+                                                                    false,
+                                                                    false,
+                                                                    true,
+                                                                    true,
+                                                                    false)),
+                                                                    (String
+                                                                    ((Ascii
+                                                                    (true,
+                                                                    false,
+                                                                    false,
+                                                                    false,
+                                                                    true,
+                                                                    true,
+                                                                    false,
+                                                                    false)),
+                                                                    (String
+                                                                    ((Ascii
+                                                                    (false,
+                                                                    true,
+                                                                    false,
+                                                                    false,
+                                                                    true,
+                                                                    true,
+                                                                    false,
+                                                                    false)),
+                                                                    (String
+                                                                    ((Ascii
+                                                                    (false,
+                                                                    true,
+                                                                    true,
+                                                                    true,
+                                                                    false,
+                                                                    true,
+                                                                    false,
+                                                                    false)),
+                                                                    (String
+                                                                    ((Ascii
+                                                                    (true,
+                                                                    true,
+                                                                    false,
+                                                                    false,
+                                                                    true,
+                                                                    true,
+                                                                    true,
+                                                                    false)),
+                                                                    (String
+                                                                    ((Ascii
+                                                                    (true,
+                                                                    true,
+                                                                    false,
+                                                                    false,
+                                                                    false,
+                                                                    true,
+                                                                    true,
+                                                                    false)),
+                                                                    (String
+                                                                    ((Ascii
+                                                                    (false,
+                                                                    true,
+                                                                    false,
+                                                                    false,
+                                                                    true,
+                                                                    true,
+                                                                    true,
+                                                                    false)),
+                                                                    (String
+                                                                    ((Ascii
+                                                                    (true,
+                                                                    false,
+                                                                    false,
+                                                                    true,
+                                                                    false,
+                                                                    true,
+                                                                    true,
+                                                                    false)),
+                                                                    (String
+                                                                    ((Ascii
+                                                                    (false,
+                                                                    false,
+                                                                    false,
+                                                                    false,
+                                                                    true,
+                                                                    true,
+                                                                    true,
+                                                                    false)),
+                                                                    (String
+                                                                    ((Ascii
+                                                                    (false,
+                                                                    false,
+                                                                    true,
+                                                                    false,
+                                                                    true,
+                                                                    true,
+                                                                    true,
+                                                                    false)),
+                                                                    EmptyString))))))))))))))))))))
+                                                                    then 
+                                                                    run_script
+                                                                    a
+                                                                    else 
+                                                                    if 
+                                                                    is
+                                                                    (String
+                                                                    ((Ascii
+                                                                    (true,
+                                                                    true,
+                                                                    false,
+                                                                    false,
+                                                                    false,
+                                                                    true,
+                                                                    true,
+                                                                    false)),
+                                                                    (String
+                                                                    ((Ascii
+                                                                    (true,
+                                                                    false,
+                                                                    false,
+                                                                    false,
+                                                                    true,
+                                                                    true,
+                                                                    false,
+                                                                    false)),
+                                                                    (String
+                                                                    ((Ascii
+                                                                    (false,
+                                                                    true,
+                                                                    false,
+                                                                    false,
+                                                                    true,
+                                                                    true,
+                                                                    false,
+                                                                    false)),
+                                                                    (String
+                                                                    ((Ascii
+                                                                    (false,
+                                                                    true,
+                                                                    true,
+                                                                    true,
+                                                                    false,
+                                                                    true,
+                                                                    false,
+                                                                    false)),
+                                                                    (String
+                                                                    ((Ascii
+                                                                    (false,
+                                                                    true,
+                                                                    false,
+                                                                    false,
+                                                                    true,
+                                                                    true,
+                                                                    true,
+                                                                    false)),
+                                                                    (String
+                                                                    ((Ascii
+                                                                    (true,
+                                                                    false,
+                                                                    false,
+                                                                    false,
+                                                                    false,
+                                                                    true,
+                                                                    true,
+                                                                    false)),
+                                                                    (String
+                                                                    ((Ascii
+                                                                    (true,
+                                                                    true,
+                                                                    false,
+                                                                    false,
+                                                                    false,
+                                                                    true,
+                                                                    true,
+                                                                    false)),
+                                                                    (String
+                                                                    ((Ascii
+                                                                    (true,
+                                                                    false,
+                                                                    true,
+                                                                    false,
+                                                                    false,
+                                                                    true,
+                                                                    true,
+                                                                    false)),
+                                                                    EmptyString))))))))))))))))
+                                                                    then 
+                                                                    run_race a
+                                                                    else 
+                                                                    if 
+                                                                    is
+                                                                    (String
+                                                                    ((Ascii
+                                                                    (true,
+                                                                    true,
+                                                                    false,
+                                                                    false,
+                                                                    false,
+                                                                    true,
+                                                                    true,
+                                                                    false)),
+                                                                    (String
+                                                                    ((Ascii
+                                                                    (true,
+                                                                    false,
+                                                                    false,
+                                                                    false,
+                                                                    true,
+                                                                    true,
+                                                                    false,
+                                                                    false)),
+                                                                    (String
+                                                                    ((Ascii
+                                                                    (false,
+                                                                    true,
+                                                                    false,
+                                                                    false,
+                                                                    true,
+                                                                    true,
+                                                                    false,
+                                                                    false)),
+                                                                    (String
+                                                                    ((Ascii
+                                                                    (false,
+                                                                    true,
+                                                                    true,
+                                                                    true,
+                                                                    false,
+                                                                    true,
+                                                                    false,
+                                                                    false)),
+                                                                    (String
+                                                                    ((Ascii
+                                                                    (true,
+                                                                    true,
+                                                                    false,
+                                                                    false,
+                                                                    true,
+                                                                    true,
+                                                                    true,
+                                                                    false)),
+                                                                    (String
+                                                                    ((Ascii
+                                                                    (true,
+                                                                    false,
+                                                                    true,
+                                                                    false,
+                                                                    false,
+                                                                    true,
+                                                                    true,
+                                                                    false)),
+                                                                    (String
+                                                                    ((Ascii
+                                                                    (true,
+                                                                    false,
+                                                                    false,
+                                                                    false,
+                                                                    true,
+                                                                    true,
+                                                                    true,
+                                                                    false)),
+                                                                    EmptyString))))))))))))))
+                                                                    then 
+                                                                    run_seq0 a
                                                                     else 
                                                                     sx_err
                                                                     (String
